@@ -1,20 +1,20 @@
 ---------------------------- MODULE MemGrowTrace ----------------------------
 (* code -> spec: API histories of the real wasmMemoryGrow / memory.size on a shared   *)
-(* memory (run under bind/c/sched.c) validated against MemGrowAbs.  Each execution     *)
+(* memory (run under bind/c/sched.c) validated against MemGrowData (= MemGrowAbs + contents).  Each execution     *)
 (* ends with a "final" event carrying the page count the descriptor holds afterwards.  *)
-EXTENDS MemGrowAbs, TLC, Json, IOUtils
+EXTENDS MemGrowData, TLC, Json, IOUtils
 History == ndJsonDeserialize(IOEnv.TRACE)
 VARIABLE l
-TInit == GInit /\ l = 1 /\ TLCSet(2, 0)
+TInit == DInit /\ l = 1 /\ TLCSet(2, 0)
 Ev == History[l]
 Consume(e) == l <= Len(History) /\ Ev.ev = e /\ l' = l + 1
-TCall == Consume("call") /\ GCall(Ev.t, Ev.op, Ev.d)
-TRet == Consume("ret") /\ GRet(Ev.t, Ev.res)
+TCall == Consume("call") /\ DCall(Ev.t, Ev.op, Ev.d, Ev.v)
+TRet == Consume("ret") /\ DRet(Ev.t, Ev.res)
 TFinal == /\ Consume("final")
           /\ \A t \in Threads : gs[t].st = "idle"
           /\ pages = Ev.pages                       \* final size = initial + sum of successful deltas
-          /\ pages' = InitPages /\ gs' = [t \in Threads |-> GIdle]
-TInternal == GInternal /\ l <= Len(History) /\ UNCHANGED l
+          /\ pages' = InitPages /\ gs' = [t \in Threads |-> GIdle] /\ cells' = [p \in 0..(MaxPages - 1) |-> 0]
+TInternal == DInternal /\ l <= Len(History) /\ UNCHANGED l
 TNext == TCall \/ TRet \/ TFinal \/ TInternal
 Progress == TLCSet(2, IF l > TLCGet(2) THEN l ELSE TLCGet(2))
 Reached == TLCGet("level") >= 0 /\ ndJsonSerialize(IOEnv.OUTFILE, <<[reached |-> TLCGet(2), total |-> Len(History)]>>)
